@@ -204,10 +204,17 @@ func OverrideDockerId(util *Data, id string) error {
 	if nil == util {
 		return fmt.Errorf("util is nil")
 	}
-	if nil == util.Vendors {
-		util.Vendors = &vendors{}
+	// The vendors struct may be shared with the Data this one was copied
+	// from (connect payloads are shallow copies of the gathered data): it is
+	// replaced, never modified in place, so that the id of one application
+	// neither shows up in the payload of another nor races with the encoding
+	// of an earlier payload.
+	v := vendors{}
+	if nil != util.Vendors {
+		v = *util.Vendors
 	}
-	util.Vendors.Docker = &docker{ID: id}
+	v.Docker = &docker{ID: id}
+	util.Vendors = &v
 	return nil
 }
 
